@@ -519,6 +519,17 @@ def _match_arms(text):
 _OBJ_GUARD = re.compile(r"^matches!\(\s*\w+\.repr\(\)\s*,\s*(ObjectRepr::\w+(?:\s*\|\s*ObjectRepr::\w+)*)\s*\)$")
 
 
+def _plain_args(alt):
+    """is `ValueRepr::X(args)` a pattern whose arguments only bind or ignore?"""
+    m = re.match(r"^(?:&)?ValueRepr::\w+\s*(?:\((.*)\))?$", alt.strip(), re.S)
+    if not m:
+        return False
+    if m.group(1) is None:
+        return True
+    return all(re.match(r"^(?:(?:ref\s+)?(?:mut\s+)?\w+|_|\.\.)$", a.strip()) and not re.match(r"^\d", a.strip())
+               for a in m.group(1).split(","))
+
+
 def _selectors(pat):
     """normalised selectors of one arm pattern: repr:X, obj:X, obj:*, kind:X, some, absent, * - anything else starts with `?`"""
     pg = _top_split(pat, " if ")
@@ -538,6 +549,10 @@ def _selectors(pat):
             sels.append("*")
         elif alt == "None":
             sels.append("absent")
+        elif len(vr) == 1 and not vk and not orp and not _plain_args(alt):
+            # a payload pattern that selects among the values of one representation (`String(_, StringType::Safe)`,
+            # `U64(0)`, …): the arm is not keyed on the representation alone
+            sels.append("?" + alt[:40])
         elif len(vr) == 1 and not vk and not orp:
             if vr[0] == "Object" and objs is not None:
                 sels += ["obj:" + o for o in objs]
